@@ -19,8 +19,11 @@ class [[nodiscard]] LockStickyAwaiter {
     return _mutex.TryLockAwait();
   }
 
+  // Not inlined: _executor lives in the coroutine frame and its address escapes nowhere else, so an inlined copy of this
+  // function may keep the value in a register and write it to the frame only after AwaitLock has published the coroutine,
+  // when another thread can already have resumed it and read the guard (clang before 17 does that)
   template <typename Promise>
-  YACLIB_INLINE bool await_suspend(yaclib_std::coroutine_handle<Promise> handle) noexcept {
+  YACLIB_NOINLINE bool await_suspend(yaclib_std::coroutine_handle<Promise> handle) noexcept {
     auto& promise = handle.promise();
     _executor = promise._executor.Get();
     if (_mutex.AwaitLock(promise)) {
